@@ -6,12 +6,13 @@ The pipeline under test is only ever called through the package's public functio
 """
 from __future__ import annotations
 
+import json
 import math
 import time
 from fractions import Fraction
 
 import numpy as np
-from qiskit.circuit import QuantumCircuit
+from qiskit.circuit import QuantumCircuit, QuantumRegister
 from qiskit.circuit.library import (
     UnitaryGate, SwapGate, iSwapGate, DCXGate, CXGate, CYGate, CZGate, CHGate, ECRGate, CSGate, CSdgGate, CSXGate,
     RXXGate, RYYGate, RZZGate, RZXGate, CRXGate, CRYGate, CRZGate, CPhaseGate, XXPlusYYGate, XXMinusYYGate,
@@ -58,6 +59,9 @@ HEAVY2 = ["swap", "iswap", "dcx", "xx_plus_yy", "xx_minus_yy", "unitary2"]
 CX_FAMILY = ["cx", "cy", "cz", "ch", "ecr"]
 SPECIAL_ANGLES = [0.0, math.pi, -math.pi, math.pi / 2, -math.pi / 2, math.pi / 3, math.pi / 4, 2 * math.pi,
                   2 * math.atan(0.5), 2 * math.atan(1 / 3.0), 4 * math.atan(0.5), 1e-3, math.pi - 1e-3, 1e-8]
+NEAR_SPECIAL = [c + sgn * eps for c in (0.0, math.pi / 4, math.pi / 2, math.pi) for eps in (1e-4, 1e-5, 1e-6)
+                for sgn in (1, -1)]
+KAK_PARAM = ["rzx", "xx_plus_yy", "xx_minus_yy"]
 LABEL_POOL = [0, 1, 2, "A", "B", "foo", (1, 2), ("a", 0), 3.5, True, frozenset([1]), -7, "", (None, 1)]
 
 
@@ -95,9 +99,11 @@ def rand_unitary(rng, d):
 
 
 def rand_gate1(rng, q):
-    r = rng.integers(0, 12)
+    r = rng.integers(0, 14)
     if r == 0:
         return dict(name="unitary1", params=[], qubits=[q], matrix=mat_to_json(rand_unitary(rng, 2)))
+    if r == 1:
+        return dict(name="reset", params=[], qubits=[q])
     nm = list(G1)[int(rng.integers(0, len(G1)))]
     return dict(name=nm, params=[rand_angle(rng) for _ in range(G1[nm][1])], qubits=[q])
 
@@ -108,7 +114,10 @@ def rand_gate2(rng, a, b, pool):
         return dict(name=nm, params=[], qubits=[a, b], matrix=mat_to_json(rand_unitary(rng, 4)))
     if nm in G2_FIXED:
         return dict(name=nm, params=[], qubits=[a, b])
-    return dict(name=nm, params=[rand_angle(rng) for _ in range(G2_PARAM[nm][1])], qubits=[a, b])
+    params = [rand_angle(rng) for _ in range(G2_PARAM[nm][1])]
+    if nm in KAK_PARAM and rng.integers(0, 3) == 0:     # just off a special point of the Weyl chamber
+        params[0] = float(NEAR_SPECIAL[int(rng.integers(0, len(NEAR_SPECIAL)))])
+    return dict(name=nm, params=params, qubits=[a, b])
 
 
 # ------------------------------------------------------------------------------------------------
@@ -182,7 +191,7 @@ def gen_spec(rng, tier, it):
         if not pairs_for_cut:
             break
         heavy_ok = budget * 58 <= cap
-        pool2 = (CX_FAMILY if (ncuts_wanted == 3 and tier == "quick") else
+        pool2 = ((CX_FAMILY if ncut else LIGHT2) if (ncuts_wanted == 3 and tier == "quick") else
                  (LIGHT2 + (HEAVY2 * 2 if heavy_ok and rng.integers(0, 2) == 0 else [])))
         a, b = pairs_for_cut[int(rng.integers(0, len(pairs_for_cut)))]
         g = rand_gate2(rng, a, b, pool2)
@@ -217,8 +226,29 @@ def gen_spec(rng, tier, it):
         q = idle[int(rng.integers(0, len(idle)))]
         obs[k] = list(obs[k])
         obs[k][q] = int(rng.integers(1, 4))
-    return dict(kind="roundtrip", it=it, n=n, form=form, gates=gates,
+    spec = dict(kind="roundtrip", it=it, n=n, form=form, gates=gates,
                 labels=[tagged(l) for l in labels], obs=obs, idle=idle)
+    # shapes: several quantum registers; labels as a tuple; pre-placed cut gates under explicit labels
+    if n >= 2 and rng.integers(0, 4) == 0:
+        k = int(rng.integers(1, n))
+        spec["regs"] = [k, n - k] if n - k < 2 or rng.integers(0, 2) else [k, 1, n - k - 1]
+    if form in ("dict_explicit", "single_pcq") and rng.integers(0, 4) == 0:
+        spec["labels_as"] = "tuple"
+    if form in ("dict_explicit", "single_pcq"):
+        for g in gates:
+            if g.get("cut") and rng.integers(0, 4) == 0:
+                g["preplaced"] = True
+    # histories
+    hist = []
+    if rng.integers(0, 8) == 0:
+        hist.append("definition")
+    if rng.integers(0, 10) == 0:
+        hist.append("finite_first")
+    if by_ids and rng.integers(0, 3) == 0:
+        hist.append("ids_desc")
+    if hist:
+        spec["history"] = hist
+    return spec
 
 
 # ------------------------------------------------------------------------------------------------
@@ -230,15 +260,33 @@ def pauli_label(lets):
 
 def build_circuit(spec, mark_cuts):
     """The input circuit.  mark_cuts: gates flagged `cut` become user-placed TwoQubitQPDGates."""
-    qc = QuantumCircuit(spec["n"])
+    if spec.get("regs"):
+        qc = QuantumCircuit(*[QuantumRegister(sz, f"r{i}") for i, sz in enumerate(spec["regs"])])
+    else:
+        qc = QuantumCircuit(spec["n"])
+    hist = spec.get("history", [])
     for g in spec["gates"]:
         if g["name"] == "barrier":
             qc.barrier(*g["qubits"])
             continue
+        if g["name"] == "reset":
+            qc.reset(g["qubits"][0])
+            continue
         gate = make_gate(g)
-        if mark_cuts and g.get("cut"):
+        if (mark_cuts and g.get("cut")) or g.get("preplaced"):
             gate = TwoQubitQPDGate.from_instruction(gate)
+            if "definition" in hist:
+                try:
+                    gate.definition            # a user looking at the gate before cutting
+                except Exception:  # noqa: BLE001
+                    pass
         qc.append(gate, g["qubits"])
+    if "definition" in hist:
+        for inst in qc.data:
+            try:
+                inst.operation.definition
+            except Exception:  # noqa: BLE001
+                pass
     return qc
 
 
@@ -246,8 +294,24 @@ def run_pipeline(spec):
     """Returns dict(outcome='ok'|'refused'|'crashed', detail, values, structure-json or None)."""
     form = spec["form"]
     labels = [untag(t) for t in spec["labels"]]
+    if spec.get("labels_as") == "tuple":
+        labels = tuple(labels)
+    elif spec.get("labels_as") == "str":
+        labels = "".join(labels)
     observables = PauliList([pauli_label(l) for l in spec["obs"]])
     out = dict(outcome="ok", detail="", values=None, st=None)
+    hist = spec.get("history", [])
+
+    def cut_ids():
+        ids = [i for i, g in enumerate(spec["gates"]) if g.get("cut")]
+        return ids[::-1] if "ids_desc" in hist else ids
+
+    def gen(circs, obs_):
+        if "finite_first" in hist:                  # an earlier, finite-budget call on the same problem
+            np.random.seed(abs(int(spec.get("it", 0))) + 7)
+            generate_cutting_experiments(circs, obs_, 10)
+        return generate_cutting_experiments(circs, obs_, np.inf)
+
     try:
         if form.startswith("dict"):
             if form == "dict_explicit":
@@ -256,14 +320,13 @@ def run_pipeline(spec):
             elif form == "dict_marked":
                 # cuts marked through cut_gates, then separated with automatic labels
                 qc = build_circuit(spec, False)
-                ids = [i for i, g in enumerate(spec["gates"]) if g.get("cut")]
-                marked, _ = cut_gates(qc, ids)
+                marked, _ = cut_gates(qc, cut_ids())
                 prob = partition_problem(marked, None, observables)
             else:
                 qc = build_circuit(spec, True)
                 prob = partition_problem(qc, None, observables)
             subcircuits, bases, subobs = prob.subcircuits, prob.bases, prob.subobservables
-            subexps, coeffs = generate_cutting_experiments(subcircuits, subobs, np.inf)
+            subexps, coeffs = gen(subcircuits, subobs)
             sampler = ExactSampler()
             results = {lab: sampler.run(c).result() for lab, c in subexps.items()}
             values = reconstruct_expectation_values(results, coeffs, subobs)
@@ -286,13 +349,13 @@ def run_pipeline(spec):
         else:
             if form == "single_cut_gates":
                 qc = build_circuit(spec, False)
-                ids = [i for i, g in enumerate(spec["gates"]) if g.get("cut")]
-                qpd_circuit, bases = cut_gates(qc, ids)
+                qpd_circuit, bases_ret = cut_gates(qc, cut_ids())
             else:
                 qc = build_circuit(spec, False)
                 qpd_circuit = partition_circuit_qubits(qc, labels)
-                bases = [inst.operation.basis for inst in qpd_circuit.data if isinstance(inst.operation, TwoQubitQPDGate)]
-            subexps, coeffs = generate_cutting_experiments(qpd_circuit, observables, np.inf)
+            # generate_cutting_experiments numbers the cuts in CIRCUIT order
+            bases = [inst.operation.basis for inst in qpd_circuit.data if isinstance(inst.operation, TwoQubitQPDGate)]
+            subexps, coeffs = gen(qpd_circuit, observables)
             results = ExactSampler().run(subexps).result()
             values = reconstruct_expectation_values(results, coeffs, observables)
             L = [list(range(len(bases)))]
@@ -308,17 +371,45 @@ def run_pipeline(spec):
         out.update(outcome="crashed", detail=f"{type(e).__name__}: {str(e)[:300]}")
         return out
     # ---- structure ----
-    C = [[Fraction(float(c)) for c in b.coeffs] for b in bases]
-    w = generate_qpd_weights(bases, np.inf)
-    ordered = sorted(w.items(), key=lambda x: x[1][0], reverse=True)
-    pairing_ok = len(ordered) == len(coeffs) and all(o[1][1] == c[1] for o, c in zip(ordered, coeffs))
-    samples = [([int(i) for i in o[0]], Fraction(float(c[0]))) for o, c in zip(ordered, coeffs)]
-    parts = []
-    for coll, sl in zip(colls, sub_lists):
-        sizes = [len(g.commuting_observables) for g in coll.groups]
-        lookup = [[(int(m), int(nn)) for m, nn in coll.lookup[o]] for o in sl]
-        parts.append((sizes, lookup))
-    vals = [float(v) for v in values]
+    try:
+        C = [[Fraction(float(c)) for c in b.coeffs] for b in bases]
+        w = generate_qpd_weights(bases, np.inf)
+        ordered = sorted(w.items(), key=lambda x: x[1][0], reverse=True)
+        pairing_ok = len(ordered) == len(coeffs) and all(o[1][1] == c[1] for o, c in zip(ordered, coeffs))
+        # the implementation does not return the joint map ids of a coefficient.  Samples of EQUAL weight may come in
+        # any order (the order among ties is not part of any contract): inside a tie the keys are matched to the
+        # coefficients by value (both sorted), so only a wrong multiset of coefficients is reported.
+        keys = [[int(i) for i in o[0]] for o in ordered]
+        cvals = [float(c[0]) for c in coeffs][:len(keys)]
+        i = 0
+        while i < len(keys):
+            j = i
+            while j + 1 < len(keys) and ordered[j + 1][1][0] == ordered[i][1][0]:
+                j += 1
+            if j > i:
+                def prod_of(ids):
+                    return float(np.prod([float(b.coeffs[m]) for b, m in zip(bases, ids)]))
+                ks = sorted(range(i, j + 1), key=lambda t: prod_of(keys[t]))
+                cs = sorted(range(i, j + 1), key=lambda t: cvals[t])
+                newkeys = list(keys)
+                for a_, b_ in zip(ks, cs):
+                    newkeys[b_] = keys[a_]
+                keys = newkeys
+            i = j + 1
+        samples = [(k_, Fraction(c_)) for k_, c_ in zip(keys, cvals)]
+        parts = []
+        for coll, sl in zip(colls, sub_lists):
+            sizes = [len(g.commuting_observables) for g in coll.groups]
+            lookup = [[(int(m), int(nn)) for m, nn in coll.lookup[o]] for o in sl]
+            parts.append((sizes, lookup))
+    except Exception as e:  # noqa: BLE001
+        out.update(outcome="crashed", detail=f"structure of the returned objects could not be read: {type(e).__name__}: {str(e)[:200]}")
+        return out
+    try:
+        vals = [float(v) for v in values]
+    except Exception as e:  # noqa: BLE001
+        out.update(outcome="crashed", detail=f"returned values are not numbers: {type(e).__name__}: {str(e)[:200]}")
+        return out
     out.update(values=vals,
                st=dict(C=[[str(c) for c in cs] for cs in C], samples=[[s[0], str(s[1])] for s in samples], L=L,
                        parts=[[p[0], [[list(mn) for mn in locs] for locs in p[1]]] for p in parts], counts=counts,
@@ -347,25 +438,45 @@ def apply_matrix(psi, n, mat, qubits):
     return np.moveaxis(out, list(range(k)), tgt)
 
 
+P0 = np.array([[1, 0], [0, 0]], dtype=complex)
+K01 = np.array([[0, 1], [0, 0]], dtype=complex)      # |0><1| : the outcome-1 branch of a reset, flipped back to |0>
+
+
 def uncut_expectations(spec):
+    """<P_k> of the uncut circuit.  The state is a list of unnormalised pure branches (a reset splits every branch in
+    two: P0 psi and |0><1| psi), so circuits with resets are covered without a density matrix."""
     n = spec["n"]
     psi = np.zeros((2,) * n, dtype=complex)
     psi[(0,) * n] = 1.0
+    branches = [psi]
     for g in spec["gates"]:
         if g["name"] == "barrier":
+            continue
+        if g["name"] == "reset":
+            q = g["qubits"]
+            nb = []
+            for b in branches:
+                for K in (P0, K01):
+                    c = apply_matrix(b, n, K, q)
+                    if float(np.vdot(c.reshape(-1), c.reshape(-1)).real) > 1e-30:
+                        nb.append(c)
+            branches = nb
             continue
         if g["name"] in ("unitary1", "unitary2"):
             mat = mat_from_json(g["matrix"])
         else:
             mat = Operator(make_gate(g)).data
-        psi = apply_matrix(psi, n, mat, g["qubits"])
+        branches = [apply_matrix(b, n, mat, g["qubits"]) for b in branches]
     vals = []
     for lets in spec["obs"]:
-        phi = psi
-        for q, l in enumerate(lets):
-            if l:
-                phi = apply_matrix(phi, n, PAULI_M[l], [q])
-        vals.append(float(np.real(np.vdot(psi.reshape(-1), phi.reshape(-1)))))
+        tot = 0.0
+        for b in branches:
+            phi = b
+            for q, l in enumerate(lets):
+                if l:
+                    phi = apply_matrix(phi, n, PAULI_M[l], [q])
+            tot += float(np.real(np.vdot(b.reshape(-1), phi.reshape(-1))))
+        vals.append(tot)
     return vals
 
 
@@ -387,6 +498,11 @@ def verdict(spec, impl):
         truth = uncut_expectations(spec)
     except Exception as e:  # noqa: BLE001
         return dict(violates=False, detail=f"oracle could not simulate the request: {type(e).__name__}: {e}")
+    if not any(g["name"] != "barrier" for g in spec["gates"]):
+        # the quantifier speaks of circuits BUILT FROM gates; a circuit without any operation (every qubit idle, nothing
+        # left to partition) is outside it  (observation: partition_problem(QuantumCircuit(2), None, ["II"]) ->
+        # generate -> reconstruct raises IndexError on /repo)
+        return dict(violates=False, detail="circuit without any operation: outside the property's quantifier")
     dropped = idle_qubits(spec)
     acts_on_dropped = any(lets[q] != 0 for lets in spec["obs"] for q in dropped)
     non_idle_none = [q for q in dropped if any(q in g["qubits"] for g in spec["gates"])]
@@ -462,6 +578,12 @@ def one_case(w, spec):
     st = impl["st"] or {}
     ncuts = len(st.get("C", []))
     nsamples = len(st.get("samples", []))
+    # judge must work from the stored JSON alone and must not flag a case the live oracle accepted
+    try:
+        jv = judge(json.loads(json.dumps(js, default=str)))
+        w.contract("judge_accepts_clean_case", (not jv.get("violates")) or (not numbers_ok))
+    except Exception:  # noqa: BLE001
+        w.contract("judge_accepts_clean_case", False)
     w.add("roundtrip", "chk_roundtrip", coq_case(spec, impl, numbers_ok), js,
           nontrivial=(impl["outcome"] == "ok" and ncuts >= 1) or impl["outcome"] == "refused")
     w.count("form", spec["form"])
@@ -630,6 +752,69 @@ def targeted_specs(rng, tier):
         form = ["dict_explicit", "single_pcq"][(i // 2) % 2]
         specs.append(dict(kind="roundtrip", it=-2, n=n, form=form, gates=gates, labels=[T(l) for l in labels],
                           obs=obs, idle=[], stream="measured_above_identity"))
+    # (e) resets in the input circuit: mid-circuit, and as the LAST operation on a measured qubit
+    for i in range(6 * rep):
+        n = 3
+        cutg = SIX_MAP_GATES[int(rng.integers(0, len(SIX_MAP_GATES)))]
+        gates = _rot_layer(rng, range(n)) + [_g2(("cx", []), 0, 1)]
+        if i % 3 == 0:
+            gates.append(dict(name="reset", params=[], qubits=[0]))
+            gates += _rot_layer(rng, [0])
+        gates.append(_g2(cutg, 1, 2, cut=True))
+        gates += _rot_layer(rng, [1, 2] if i % 2 else [0, 1])
+        last = [2, 0, 1][i % 3]
+        gates.append(dict(name="reset", params=[], qubits=[last]))
+        if i % 2 and last != 0:
+            gates.append(dict(name="reset", params=[], qubits=[0]))
+        obs = _dense_obs(rng, n, 2) + [[3, 3, 3], [3 if q == last else 0 for q in range(n)]]
+        form = ["dict_explicit", "single_cut_gates", "dict_auto", "dict_marked"][i % 4]
+        specs.append(dict(kind="roundtrip", it=-2, n=n, form=form, gates=gates, labels=[T("A"), T("A"), T("B")],
+                          obs=obs, idle=[], stream="resets"))
+    # (f) shapes: several registers, labels as str / tuple, pre-placed cut gates under explicit labels
+    for i in range(8 * rep):
+        n = 4
+        g_pre = ASYMMETRIC_GATES[int(rng.integers(0, len(ASYMMETRIC_GATES)))]
+        g_auto = SIX_MAP_GATES[int(rng.integers(0, len(SIX_MAP_GATES)))]
+        gates = _rot_layer(rng, range(n)) + [_g2(("cx", []), 0, 1), _g2(("cz", []), 3, 2)]
+        pre = _g2(g_pre, 2, 1) if i % 2 == 0 else _g2(g_pre, 1, 0)      # across the partitions / inside partition A
+        pre["preplaced"] = True
+        pre["cut"] = True
+        gates.append(pre)
+        gates += _rot_layer(rng, [1, 2])
+        gates.append(_g2(g_auto, 1, 3, cut=True))                         # cut by the labels
+        gates += _rot_layer(rng, range(n))
+        spec = dict(kind="roundtrip", it=-2, n=n, form=("dict_explicit" if i % 4 != 3 else "single_pcq"), gates=gates,
+                    labels=[T("A"), T("A"), T("B"), T("B")], obs=_dense_obs(rng, n, 3) + [[3, 3, 3, 3]], idle=[],
+                    stream="shapes")
+        spec["regs"] = [[1, 3], [2, 2], [1, 2, 1], [3, 1]][i % 4]
+        spec["labels_as"] = ["str", "tuple", "list"][i % 3]
+        specs.append(spec)
+    # (g) histories: .definition read before the call, a finite-budget call first, cut_gates with descending gate ids
+    for i in range(6 * rep):
+        n = 3
+        ga = ASYMMETRIC_GATES[int(rng.integers(0, len(ASYMMETRIC_GATES)))]
+        gb = SIX_MAP_GATES[int(rng.integers(0, len(SIX_MAP_GATES)))]
+        gates = _rot_layer(rng, range(n)) + [_g2(ga, 0, 1, cut=True)] + _rot_layer(rng, [0, 1]) + [_g2(gb, 2, 1, cut=True)]
+        gates += _rot_layer(rng, range(n))
+        form = ["dict_auto", "single_cut_gates", "dict_marked", "dict_explicit", "single_cut_gates", "dict_marked"][i % 6]
+        spec = dict(kind="roundtrip", it=-2 - i, n=n, form=form, gates=gates, labels=[T(0), T(1), T(2)],
+                    obs=_dense_obs(rng, n, 3) + [[3, 3, 3]], idle=[], stream="histories")
+        spec["history"] = [["definition"], ["ids_desc"], ["ids_desc", "finite_first"], ["definition", "finite_first"],
+                           ["ids_desc", "definition"], ["ids_desc"]][i % 6]
+        if form == "dict_explicit":
+            for g in gates:
+                if g.get("cut"):
+                    g["preplaced"] = True
+        specs.append(spec)
+    # (h) KAK-path gates just off the special points of the Weyl chamber
+    for i in range(6 * rep):
+        nm = KAK_PARAM[i % 3]
+        ang = float(NEAR_SPECIAL[int(rng.integers(0, len(NEAR_SPECIAL)))])
+        params = [ang] if nm == "rzx" else [ang, float(rng.uniform(-1, 1))]
+        gates = _rot_layer(rng, range(2)) + [dict(name=nm, params=params, qubits=[0, 1] if i % 2 else [1, 0], cut=True)]
+        gates += _rot_layer(rng, range(2))
+        specs.append(dict(kind="roundtrip", it=-2, n=2, form=("dict_explicit" if i % 2 else "single_cut_gates"), gates=gates,
+                          labels=[T("A"), T("B")], obs=_dense_obs(rng, 2, 3) + [[3, 3]], idle=[], stream="near_special_kak"))
     return specs
 
 
@@ -665,7 +850,11 @@ def generate(rng, tier, outdir):
              "Targeted streams (about 40 requests): >= 3 partitions with cut 0 away from the first partition and different "
              "six-map gates (order of `bases` against the cut ids); X-only observables on a discarded idle qubit; asymmetric "
              "gates with descending operands cut through cut_gates (unseparated and marked + partition_problem); measured X/Y "
-             "above an identity inside a partition. "
+             "above an identity inside a partition; resets (mid-circuit and last on a measured qubit); shapes (several quantum "
+             "registers, labels as str/tuple, pre-placed TwoQubitQPDGates under explicit labels across and inside partitions); "
+             "histories (.definition read before the call, a finite-budget generate first, descending gate ids for cut_gates); "
+             "rzx / xx_plus_yy / xx_minus_yy at 1e-4..1e-6 off the special angles. The uniform stream also draws resets, "
+             "registers, tuple labels, pre-placed gates and histories. "
              "distinct = distinct Coq case literal; non-trivial = at least one cut reconstructed, or a refusal",
     )
 
